@@ -57,8 +57,9 @@ type c13Scenario struct {
 	BP        int    `json:"breakpoints"` // 0 nil, 1 non-nil never reached, 2 reached
 	Canceller int    `json:"canceller"`   // 0 absent, 1 cancels before the call, 2 concurrent
 	Deadline  bool   `json:"deadline_context"`
-	Runs      int    `json:"runs,omitempty"` // number of consecutive Run calls by the caller (0 = 1)
-	R0        int    `json:"r0,omitempty"`   // initial refresh register (0 = base vector's, else value+1)
+	Runs      int    `json:"runs,omitempty"`              // number of consecutive Run calls by the caller (0 = 1)
+	R0        int    `json:"r0,omitempty"`                // initial refresh register (0 = base vector's, else value+1)
+	SepCtx    bool   `json:"separate_contexts,omitempty"` // Run #1 gets the cancellable context, later Runs a fresh one nobody cancels
 	Sched     []int  `json:"schedule,omitempty"`
 }
 
@@ -110,6 +111,8 @@ type c13Outcome struct {
 	halt      bool
 	pcMem     uint8
 	firstErrs []error
+	// lastCtxLive: the last Run had a context that was never cancelled
+	lastCtxLive bool
 }
 
 func (o *c13Outcome) sig() string {
@@ -185,7 +188,16 @@ func c13Body(bg *[65536]uint8, sc *c13Scenario, world **c13World) func(s *sched.
 				// repeated calls on the same CPU: a flag, goroutine or context kept from the
 				// previous call must not leak into this one
 				out.firstErrs = append(out.firstErrs, err)
-				err = cpu.Run(ctx)
+				if sc.SepCtx {
+					// a context of its own that nobody ever cancels: whatever happens to the context
+					// of the earlier call must not stop this one
+					fresh, freshCancel := context.WithCancel(context.Background())
+					err = cpu.Run(fresh)
+					out.lastCtxLive = true
+					freshCancel()
+				} else {
+					err = cpu.Run(ctx)
+				}
 			}
 			out.err = err
 			out.returned = true
@@ -255,7 +267,9 @@ func c13Judge(bg *[65536]uint8, sc *c13Scenario, x *sched.Scheduler, w *c13World
 			d = append(d, fmt.Sprintf("Run returned ErrBreakPoint at PC=%04X which is not a breakpoint", out.final.PC))
 		}
 	case out.err == context.Canceled || out.err == context.DeadlineExceeded:
-		if !out.cancelled {
+		if out.lastCtxLive {
+			d = append(d, fmt.Sprintf("Run returned %v although its own context was never cancelled (only the context of an earlier Run on this CPU was)", out.err))
+		} else if !out.cancelled {
 			d = append(d, fmt.Sprintf("Run returned %v although the context had not been cancelled", out.err))
 		}
 		want := context.Canceled
@@ -351,6 +365,10 @@ func checkC13(c *Ctx) {
 						for _, r0 := range []int{0x00, 0x01, 0x7E, 0xFF} {
 							scenarios = append(scenarios, c13Scenario{Prog: pi, Name: progs[pi].name, BP: bp, Canceller: can, R0: r0 + 1})
 						}
+					}
+					if progs[pi].terminating && !dl && can == 2 && bp != 1 {
+						// Run #1 under the cancellable context (ends by HALT or at the breakpoint), Run #2 under a live context of its own
+						scenarios = append(scenarios, c13Scenario{Prog: pi, Name: progs[pi].name + " (Run x2, separate contexts)", BP: bp, Canceller: can, Runs: 2, SepCtx: true})
 					}
 					if progs[pi].terminating && bp == 0 && !dl {
 						scenarios = append(scenarios, c13Scenario{Prog: pi, Name: progs[pi].name + " (Run x2)", BP: bp, Canceller: can, Runs: 2})
